@@ -580,7 +580,7 @@ def row_stale_buffer(tier, seed):
     call left '<r0>_<r1>_assignment.json' files (inside its own result_buffer_* sub-directory and directly)"""
     row = fx.new_row('cell_type_mapper.type_assignment.election_runner.run_type_assignment_on_h5ad#stale_buffer',
                      'seeded-random', "world of 6 leaves / 30 genes / 20 query cells; n_processors {1,2}; stale chunk files "
-                     "of another query (same row ranges, other cells) planted in a sub-directory and at top level",
+                     "of an earlier call on the same query (same cells, other results) planted in a sub-directory and at top level",
                      [CL_BUFFER])
     try:
         with fx.scratch() as d:
@@ -591,11 +591,18 @@ def row_stale_buffer(tier, seed):
                 with fx.quiet():
                     want = m.run_election_direct(world, nproc, scr, results_output_path=fresh, chunk_size=7,
                                                  bootstrap_iteration=3)
-                for where in ('sub-directory', 'top level'):
+                for where in ('sub-directory sorting first', 'sub-directory sorting last', 'top level'):
                     shared = tempfile.mkdtemp(dir=str(d), prefix='shared_')
-                    stale_dir = os.path.join(shared, 'result_buffer_left_by_failed_run') if where == 'sub-directory' else shared
+                    stale_dir = shared
+                    if where.startswith('sub-directory'):
+                        stale_dir = os.path.join(shared, ('aa' if where.endswith('first') else 'zz') + '_buffer_of_a_failed_run')
                     os.makedirs(stale_dir, exist_ok=True)
-                    stale = [dict(r, cell_id='stale_' + str(r['cell_id'])) for r in want[:7]]
+                    # what an earlier call on the same query left behind: the same cells, other results
+                    stale = json.loads(json.dumps(want, default=str))
+                    for r in stale:
+                        for lv in world.hierarchy:
+                            r[lv]['assignment'] = 'STALE'
+                            r[lv]['bootstrapping_probability'] = 0.123
                     for name in ('0_7_assignment.json', '7_14_assignment.json', '900_907_assignment.json'):
                         with open(os.path.join(stale_dir, name), 'w') as f:
                             json.dump(stale, f)
